@@ -17,6 +17,24 @@ def getter(name, local):
     return E.m_calls(name) & E.M(lambda t: E.m_is_ref(local)(E.strip(t)["o"]), "on(%s)" % local)
 
 
+def result_of(ck, fn, callee, on=None):
+    """local helper: atom is a call of `callee` (on local object `on`), or a local whose every definition is exactly such a call
+    (so hoisting a tested call into a const local is not reported)"""
+    direct = getter(callee, on) if on else E.m_calls(callee)
+    is_call = lambda t: isinstance(E.strip(t), dict) and E.strip(t).get("k") == "call" and E.strip(t).get("f") == callee and direct(E.strip(t))
+    defs = ck.local_defs(fn)
+
+    def pred(t):
+        t = E.strip(t)
+        if not isinstance(t, dict):
+            return False
+        if t.get("k") == "ref" and t.get("dk") in ("local", "static"):
+            ds = defs.get(t["d"], [])
+            return bool(ds) and all(is_call(x) for x in ds)
+        return bool(direct(t))
+    return E.M(pred, direct.desc)
+
+
 def need_locals(ck, fn, *names):
     """exit 2 (not a verdict) if a local/parameter the matchers below refer to by name was renamed"""
     have = {p.get("d") for p in fn.params} | {ev.get("d") for b in fn.blocks.values() for ev in b["ev"] if ev.get("e") == "decl"}
@@ -55,7 +73,7 @@ def run(ck):
     for g, v, why in [("finalized", False, "a cyclic chain or a slot already owned by another entry would be accepted"),
                       ("mapped", True, "a slot that was never added to the map would be counted"),
                       ("freed", False, "a slot already given back as free space would be counted")]:
-        ck.require_fact("F2.slot-gates", fl, mark, getter(LS + g, "slot"), v, "slot.finalized(true)", why="(%s)" % why)
+        ck.require_fact("F2.slot-gates", fl, mark, result_of(ck, fin, LS + g, "slot"), v, "slot.finalized(true)", why="(%s)" % why)
     step = ev_any(ev_assign("mappedSize", ops=("+=",)), ev_assign("slotId", ops=("=",)))
     ck.require_passed("F2.walk-marks-each-slot", fl, step, "mark", "mappedSize+=|slotId=next", min_sites=2,
                       why="(a slot would be counted without the once-only finalized mark)")
@@ -102,9 +120,9 @@ def run(ck):
     need_locals(ck, los, "header")
     fl = ck.flow(los, markers={"copied": copy})
     use = ev_call(RB + "useNewSlot")
-    for m, v, why in [(E.m_calls("storeRebuildLoadEntry"), True, "a slot that could not be read would be used"),
-                      (E.m_calls("Rock::DbCellHeader::empty"), False, "an empty slot would be used"),
-                      (E.m_calls("Rock::DbCellHeader::sane"), True, "a slot with out-of-range links/sizes would be used")]:
+    for m, v, why in [(result_of(ck, los, "storeRebuildLoadEntry"), True, "a slot that could not be read would be used"),
+                      (result_of(ck, los, "Rock::DbCellHeader::empty"), False, "an empty slot would be used"),
+                      (result_of(ck, los, "Rock::DbCellHeader::sane"), True, "a slot with out-of-range links/sizes would be used")]:
         ck.require_fact("L1.slot-header-gates", fl, use, m, v, "useNewSlot()", why="(%s)" % why)
     ck.require_passed("L1.slot-header-gates", fl, use, "copied", "useNewSlot()")
     # (the size fact mentions `header` through sizeof, so it is consumed by the copy itself: it is required at the copy)
@@ -142,7 +160,7 @@ def run(ck):
         ck.require_unreachable("L3.no-growth-after-verdict", ck.flow(uns, switch_assume=on_state(states[name])), grow, "addSlotToEntry|startNewEntry", "state==" + name,
                                why="(a slot would be added to an entry that was already published or discarded)")
     fl = ck.flow(uns, switch_assume=on_state(states["leLoading"]))
-    ck.require_fact("L3.same-key", fl, ev_call(RB + "addSlotToEntry"), E.m_calls(RB + "sameEntry"), True, "addSlotToEntry()",
+    ck.require_fact("L3.same-key", fl, ev_call(RB + "addSlotToEntry"), result_of(ck, uns, RB + "sameEntry"), True, "addSlotToEntry()",
                     why="(a slot of another key would join the chain)")
     ck.require_unreachable("L3.no-restart-while-loading", fl, ev_call(RB + "startNewEntry"), "startNewEntry", "state==leLoading")
     fl = ck.flow(uns, switch_assume=on_state(states["leEmpty"]))
@@ -172,7 +190,7 @@ def run(ck):
                     why="(a second inode slot would be merged into the entry)")
     tot = E.m_is_ref("totalSize")
     swapsz = E.M(lambda t: any(m.endswith("::swap_file_sz") for m in E.mentions(t)), "swap_file_sz")
-    imported = E.m_calls(RB + "importEntry")
+    imported = result_of(ck, ase, RB + "importEntry")
     same_size = E.m_cmp("==", tot, swapsz)
     over = E.m_cmp("<", tot, size)
     # the inode-conflict test is the le.anchored() evaluation made under (header.firstSlot == slotId); the earlier one only picks the chain head
@@ -189,7 +207,7 @@ def run(ck):
         ck.ok("A1.inode-conflict-freed", ase.where(ase.blocks[inner[0][0]]["term"].get("l")), "a second inode slot always leads to freeBadEntry()")
     ck.require_response("A1.bad-metainfo-freed", ase, imported, False, bad, "freeBadEntry()")
     ck.require_response("A1.size-mismatch-freed", ase, same_size, False, bad, "freeBadEntry()")
-    ck.require_response("A1.overflow-freed", ase, over, True, bad, "freeBadEntry()")
+    ck.require_response("A1.overflow-freed", ase, over, True, bad, "freeBadEntry()", assume=[(E.m_cmp("<", E.m_const(0), tot), True)])   # size known
 
     ck.rule("A2 addSlotToEntry dominance: the size bookkeeping after the inode block (and so mapSlot) is reached only with not-an-inode-slot, or importEntry() T and "
             "(header.entrySize unknown | anchor size was unknown | totalSize == swap_file_sz); mapSlot() only with (totalSize > 0) F or (le.size > totalSize) F; "
@@ -211,16 +229,16 @@ def run(ck):
     need_locals(ck, ms, "slot")
     fl = ck.flow(ms)
     for g in ("mapped", "freed"):
-        ck.require_fact("S1.slot-once", fl, setter(LS + "mapped"), getter(LS + g, "slot"), False, "slot.mapped(true)", why="(a slot would belong to two entries)")
+        ck.require_fact("S1.slot-once", fl, setter(LS + "mapped"), result_of(ck, ms, LS + g, "slot"), False, "slot.mapped(true)", why="(a slot would belong to two entries)")
     ck.require_passed("S1.slot-once", ck.flow(ms, markers={"m": setter(LS + "mapped")}), ev_call(MAP + "importSlice"), "m", "importSlice()")
     fs = facts.fn(RB + "freeSlot")
     need_locals(ck, fs, "slot")
     fl = ck.flow(fs, markers={"f": setter(LS + "freed")})
-    ck.require_fact("S1.slot-once", fl, setter(LS + "freed"), getter(LS + "freed", "slot"), False, "slot.freed(true)", why="(a slot would be pushed to the free list twice)")
+    ck.require_fact("S1.slot-once", fl, setter(LS + "freed"), result_of(ck, fs, LS + "freed", "slot"), False, "slot.freed(true)", why="(a slot would be pushed to the free list twice)")
     ck.require_passed("S1.slot-once", fl, ev_call("Ipc::Mem::PageStack::push"), "f", "freeSlots->push()")
     fus = facts.fn(RB + "freeUnusedSlot")
     need_locals(ck, fus, "slot")
-    ck.require_fact("S1.slot-once", ck.flow(fus), ev_call(RB + "freeSlot"), getter(LS + "mapped", "slot"), False, "freeSlot()", why="(a mapped slot would also be free space)")
+    ck.require_fact("S1.slot-once", ck.flow(fus), ev_call(RB + "freeSlot"), result_of(ck, fus, LS + "mapped", "slot"), False, "freeSlot()", why="(a mapped slot would also be free space)")
     chains = facts.fns(RB + "chainSlots")
     ck.need(chains, "C57: chainSlots not found")
     for cs in chains:
